@@ -415,8 +415,10 @@ def gen_plan(rng, tier):
                         sub.append(["nice_iv", rng.choice(UNITS), rng.choice([0, 1, 1, 2, 3, 5])])
                 elif k < 0.92:
                     sub.append(["ticks", rng.choice([None, None, 2, 5, 10, 20, 1, 3, 7, 50])])
-                else:
+                elif k < 0.96:
                     sub.append(["copy"])
+                else:
+                    sub.append(["clamp", rng.random() < 0.7])
             ops.append(["scale", [a, b], rr, sub])
         else:
             ops.append(gen_timeline_op(rng, pick, t0, t1))
@@ -490,7 +492,9 @@ def _exec_op(op, stats, all_dts):
         a, b = _in(a), _in(b)
         all_dts.append(("in_range", a))
         all_dts.append(("in_range", b))
-        res = d3_time[unit].range(a, b, step)
+        # the plural aliases (d3_time["hours"] ...) are the same functions; use them half the time
+        fn = d3_time[unit + "s"] if (step % 2 == 0 and (unit + "s") in d3_time) else d3_time[unit].range
+        res = fn(a, b, step)
         for x in res[:50]:
             all_dts.append(("out_range", x))
         return res
@@ -541,6 +545,9 @@ def _exec_op(op, stats, all_dts):
                 elif so[0] == "copy":
                     s = s.copy()
                     out.append("copied")
+                elif so[0] == "clamp":
+                    s.clamp(so[1])
+                    out.append(s.clamp())
             except seams.SimTimeout:
                 raise
             except Exception as e:
